@@ -258,7 +258,20 @@ func genRepo(r *rng, tier string) []gObj {
 		maxN = 40
 	}
 	n := 1 + r.n(maxN)
-	shape := r.n(10) // 0: bomb, 1: linear history, else mixed
+	shape := r.n(10) // 0: bomb, 1: linear history, 2: tag fan-in, else mixed
+	if shape == 2 {
+		// several annotated tags pointing at the SAME annotated tag (and a chain above one of them): every
+		// referrer must learn the referent's depth, however many wait for it (seeded C03q kept one listener)
+		objs = append(objs, gObj{kind: 'b', size: genBlobSize(r)})
+		objs = append(objs, gObj{kind: 't', entries: []gEntry{{0o100644, []byte("f"), 0}}})
+		objs = append(objs, gObj{kind: 'c', tree: 1, pad: r.n(50)})
+		objs = append(objs, gObj{kind: 'g', ref: 2, refKind: 'c', pad: r.n(20)}) // X
+		k := 2 + r.n(3)
+		for j := 0; j < k; j++ {
+			objs = append(objs, gObj{kind: 'g', ref: 3, refKind: 'g', pad: r.n(20)})
+		}
+		objs = append(objs, gObj{kind: 'g', ref: 4 + r.n(k), refKind: 'g', pad: r.n(20)})
+	}
 	if shape == 0 {
 		// git bomb: a chain of trees, each holding k copies of the previous level
 		objs = append(objs, gObj{kind: 'b', size: genBlobSize(r)})
